@@ -664,7 +664,7 @@ class SsdpSearchResponder:
 
     def _build_responses_device_udn(self, device: UpnpDevice) -> bytes:
         """Send device responses for UDN."""
-        return self._build_response(device.udn, f"{self.device.udn}")
+        return self._build_response(device.udn, f"{device.udn}")
 
     def _build_responses_device_type(
         self, device: UpnpDevice, device_type: Optional[str] = None
@@ -672,7 +672,7 @@ class SsdpSearchResponder:
         """Send device responses for device type."""
         return self._build_response(
             device_type or device.device_type,
-            f"{self.device.udn}::{device.device_type}",
+            f"{device.udn}::{device.device_type}",
         )
 
     def _build_responses_service(
@@ -681,7 +681,7 @@ class SsdpSearchResponder:
         """Send service responses."""
         return self._build_response(
             service_type or service.service_type,
-            f"{self.device.udn}::{service.service_type}",
+            f"{service.device.udn}::{service.service_type}",
         )
 
     def _build_response(
